@@ -383,6 +383,9 @@ structure Mon where
   tDetach : Nat → Bool := fun _ => false
   tThird : Nat → Bool := fun _ => false
   tOver : Nat → Bool := fun _ => false
+  /-- the windows of a target in the order they were opened (an anomaly is attributed to the
+      window that was opened first: the later ones are usually its consequences) -/
+  tOrder : Nat → List String := fun _ => []
   /-- calls in flight: (fiber, op, target, has exchanged detach_state) -/
   open_ : List (Nat × Op × Nat × Bool) := []
   /-- calls in flight that had not exchanged `detach_state` yet when they touched the already
@@ -397,8 +400,14 @@ structure Mon where
   tainted : List String := []
 
 def taintName (m : Mon) (g : Nat) : Option String :=
-  if m.tDetach g then some "detach" else if m.tThird g then some "third-party"
-  else if m.tOver g then some "overwrite" else none
+  match m.tOrder g with
+  | w :: _ => some w
+  | [] =>
+    if m.tDetach g then some "detach" else if m.tThird g then some "third-party"
+    else if m.tOver g then some "overwrite" else none
+
+def Mon.opened (m : Mon) (g : Nat) (w : String) : Mon :=
+  if (m.tOrder g).contains w then m else { m with tOrder := upd m.tOrder g (m.tOrder g ++ [w]) }
 
 def Mon.flag (m : Mon) (g : Nat) (kind : String) (detail : String) : Mon :=
   match taintName m g with
@@ -439,14 +448,14 @@ def monStep (isTarget : Nat → Bool) (m : Mon) (e : Ev) : Mon :=
     | .xchgDet a g old new =>
       if m.invalid.contains (a, g) then m else
       let m := if new = DET then { m with detX := upd m.detX g true } else m
-      let m := if new = DET ∧ old = WTJ then { m with tDetach := upd m.tDetach g true } else m
+      let m := if new = DET ∧ old = WTJ then ({ m with tDetach := upd m.tDetach g true }).opened g "detach" else m
       let m := if new = WFJ ∧ old = WTJ then { m with finTook := upd m.finTook g true, claimed := upd m.claimed g true } else m
-      let m := if new ≠ WFJ ∧ old = WFJ ∧ m.finTook g then { m with tThird := upd m.tThird g true } else m
+      let m := if new ≠ WFJ ∧ old = WFJ ∧ m.finTook g then ({ m with tThird := upd m.tThird g true }).opened g "third-party" else m
       let m := if new ≠ DET ∧ old = WFJ then { m with claimed := upd m.claimed g true } else m
-      let m := if new ≠ DET ∧ old = DET then { m with tOver := upd m.tOver g true } else m
+      let m := if new ≠ DET ∧ old = DET then ({ m with tOver := upd m.tOver g true }).opened g "overwrite" else m
       m
     | .ldDet a g v =>
-      if v = WFJ ∧ m.finTook g ∧ a ≠ g ∧ !m.invalid.contains (a, g) then { m with tThird := upd m.tThird g true } else m
+      if v = WFJ ∧ m.finTook g ∧ a ≠ g ∧ !m.invalid.contains (a, g) then ({ m with tThird := upd m.tThird g true }).opened g "third-party" else m
     | _ => m
   -- (e) any event by or on a destroyed target
   let m := match e with
@@ -495,10 +504,13 @@ def monEnd (isTarget : Nat → Bool) (m : Mon) : Mon :=
 
 def monitor (isTarget : Nat → Bool) (evs : List Ev) : Option String :=
   let m := monEnd isTarget (evs.foldl (monStep isTarget) {})
+  -- a violation on a history without a flagged window is reported alone (it is new whatever
+  -- else happened); otherwise ALL classified anomalies of the run are reported, so that the
+  -- check can require every one of them to be a listed finding
   match m.plain, m.tainted with
   | p :: _, _ => some p
-  | [], t :: _ => some t
   | [], [] => none
+  | [], ts => some (" && ".intercalate ts.eraseDups)
 
 def drive (lines : List String) : IO UInt32 := do
   let nT := match initArgs lines with
